@@ -230,12 +230,14 @@ func newRuleguardChecker(info *linter.CheckerInfo, ctx *linter.CheckerContext) (
 					return nil, fmt.Errorf("ruleguard init error: %+v", err)
 				}
 				log.Printf("ruleguard init error, skip %s: %+v", filename, err)
+				continue
 			}
 			if err := engine.Load(loadContext, filename, bytes.NewReader(data)); err != nil {
 				if h.failOnParseError(err) {
 					return nil, fmt.Errorf("ruleguard init error: %+v", err)
 				}
 				log.Printf("ruleguard init error, skip %s: %+v", filename, err)
+				continue
 			}
 			loaded++
 		}
